@@ -154,5 +154,14 @@ Qed.
 Lemma walkoff_length p : pm_n p = 0.5 * p_L p * tan (p_rho p).
 Proof. unfold pm_n. replace (p_rho p / 1) with (p_rho p) by field. reflexivity. Qed.
 
-Lemma limit_hypotheses_example : 0 < 4e-6 /\ 0 < 9e-6 /\ 0 <= 6.25e-6 /\ (0.00007 <> 0).
-Proof. repeat split; lra. Qed.
+(* an instance of the zero-diffraction closed form at concrete values (2 mm / 3 mm / 2.5 mm waists, walk-off length 0.07 mm): its
+   hypotheses are satisfiable *)
+Lemma zero_diffraction_instance z :
+  Cmod (pm_closure (fun _ => 1) 1 (RtoC (- (6.25e-6 + 4e-6) / 4)) (RtoC (- (6.25e-6 + 9e-6) / 4)) (RtoC (- (6.25e-6 + 4e-6) / 4))
+                   (RtoC (- (6.25e-6 + 9e-6) / 4)) 0 0 0 0 (RtoC (- (6.25e-6) / 2)) (RtoC (- (6.25e-6) / 2)) 0 0.00007 (0, 0.3)
+                   (RtoC 0) (RtoC 0) (RtoC 0) 1.5 2 z) =
+  Rabs 1 * (4 / sqrt (Sig 4e-6 9e-6 6.25e-6 * Sig 4e-6 9e-6 6.25e-6)) *
+  exp (- (0.00007 * 0.00007 * (4e-6 + 9e-6) / Sig 4e-6 9e-6 6.25e-6) * ((1 + z) * (1 + z))).
+Proof.
+  exact (closure_zero_diffraction_modulus (fun _ => 1) 6.25e-6 6.25e-6 4e-6 9e-6 0.00007 0.3 1.5 2 z ltac:(lra) ltac:(lra) ltac:(lra) ltac:(lra)).
+Qed.
